@@ -6,6 +6,7 @@ mod adj;
 mod container;
 mod cursor;
 mod paired;
+mod sched;
 mod search;
 mod serde_io;
 
@@ -27,8 +28,11 @@ fn main() {
             i += 1;
         }
     }
-    guard::install_single_thread_lock_hook();
+    if args[1] != "sched" {
+        guard::install_single_thread_lock_hook();
+    }
     let out: Value = match args[1].as_str() {
+        "sched" => sched::explore(&opts),
         "replay-adj" => adj::replay(&opts),
         "record-adj" => adj::record(&opts),
         "replay-search" => search::replay(&opts),
